@@ -280,6 +280,7 @@ impl Check for C04 {
             let items = refr.ok_prefix();
             let bounds = cases::item_boundaries(&items, rc.input.len());
             rc.cfg.capacity = io::gen_capacity(&mut rng, rc.input.len());
+            crate::harness::gen_cfg_history(&mut rng, &mut rc.cfg);
             rc.script = io::gen_rscript(&mut rng, rc.input.len(), &bounds);
             let sub = rng.below(10);
             if sub == 0 {
